@@ -482,6 +482,29 @@ def named_program(name):
             b = mn.call(fn, b)[0]
             mn.load_function(fn)
         mn.set_outputs(b)
+    elif name == "meta_ways":         # seeded C12-j: metadata set in every public way, dicts rebound after the node exists
+        g = m.define_main([tys.Bool])
+        (b,) = g.inputs()
+        n1 = g.add_op(Not, b, metadata={"how": "at creation"})
+        n2 = g.add_op(Not, n1)
+        n3 = g.add_op(Not, n2)
+        n4 = g.add_op(Not, n3, metadata={"how": "at creation", "old": 1})
+        n5 = g.add_op(Not, n4)
+        h = m.hugr
+        n2.metadata["how"] = "through the handle"
+        h[n3].metadata["how"] = "node data updated in place"
+        h[n4].metadata = {"how": "rebound", "line": 42}
+        h[n5].metadata = {"how": "rebound, was empty"}
+        h[g.parent_node].metadata = {"how": "function rebound before its last children exist"}
+        with g.add_nested(n5) as d:
+            h[d.parent_node].metadata = {"how": "container rebound before its children exist"}
+            d.metadata["late"] = "written through the builder after the rebinding: the HUGR's entry decides"
+            (x,) = d.inputs()
+            k = d.add_op(Not, x, metadata={"gone": True})
+            h[k].metadata = {}
+            d.set_outputs(k)
+        g.set_outputs(d[0])
+        m.metadata["root"] = "module builder"
     elif name == "dfg_root":          # not a module: export of the root as a module region raises
         d = Dfg(tys.Bool)
         d.set_outputs(*d.inputs())
@@ -493,7 +516,7 @@ def named_program(name):
 
 NAMED = ["call_twice", "load_twice", "order_hint", "cfg_entry", "cfg_loop", "fn_value", "poly_call", "alias",
          "unused_outputs", "order_fan", "order_back", "order_twice", "meta_json", "main_called", "main_recursive",
-         "names_special"]
+         "names_special", "meta_ways"]
 # programs outside the guard of the theorems (not claimed valid): model and implementation must still agree
 BOUNDARY = ["dfg_root", "cfg_no_entry", "half_order"]
 GUARDS = ("g_valid", "g_order", "g_ports", "g_stars", "g_cfg", "g_hints", "g_total", "g_all", "g_noerr", "g_numexact",
@@ -618,6 +641,7 @@ def gen_callgraph(rng):
 
 
 def build_callgraph(cg):
+    import copy
     from hugr import tys, val
     from hugr.build import Module
     from hugr.std.logic import Not
@@ -649,8 +673,17 @@ def build_callgraph(cg):
             if tag == "B" and not pool["B"]:
                 pool["B"].append(b.load(val.TRUE))
             return pool[tag][sel % len(pool[tag])]
+        last = None
         for st in body:
             k = st[0]
+            if k == "meta":
+                _, way, tgt, ki, vi = st
+                key, value = META_KEYS[ki % len(META_KEYS)], META_VALS[vi % len(META_VALS)]
+                if way == "builder":          # ToNode.metadata of the builder / of the node the builder returned
+                    (b if tgt == "parent" or last is None else last).metadata[key] = copy.deepcopy(value)
+                else:
+                    set_metadata(b.hugr, b.parent_node if tgt == "parent" or last is None else last, way, key, value)
+                continue
             if k in ("call", "load"):
                 j = st[1] % len(nodes)
                 ty = cg["funcs"][j]["ty"]
@@ -663,15 +696,20 @@ def build_callgraph(cg):
                 else:
                     tag = "B"
                 if k == "load":
-                    b.load_function(nodes[j], **kw)
+                    last = b.load_function(nodes[j], **kw)
                     continue
                 sel = st[2] if len(st) > 2 else 0
                 args = [pick(tag, sel + q) for q in range(len(rows[ty][0]))]
                 c = b.call(nodes[j], *args, **kw)
+                last = c
                 if rows[ty][1]:
                     pool[tag].append(c[0])
             elif k == "not":
-                pool["B"].append(b.add_op(Not, pick("B", st[1] if len(st) > 1 else 0)))
+                md = None
+                if len(st) > 2:
+                    md = {META_KEYS[st[2][0] % len(META_KEYS)]: copy.deepcopy(META_VALS[st[2][1] % len(META_VALS)])}
+                last = b.add_op(Not, pick("B", st[1] if len(st) > 1 else 0), metadata=md)
+                pool["B"].append(last)
             elif k == "nest":
                 wires = pool["B"] + pool["T"]
                 with b.add_nested(*wires) as d:
@@ -680,6 +718,7 @@ def build_callgraph(cg):
                     run(d, st[1], p2, here)
                     res = (p2["B"][-1:] if p2["B"] else [])
                     d.set_outputs(*res)
+                last = d.parent_node
                 if res:
                     pool["B"].append(d[0])
     for f, b in zip(cg["funcs"], builders):
@@ -821,6 +860,97 @@ def add_static_uses(h, rng, tries=3):
     return added
 
 
+# ----------------------------------------------------------------------------- metadata set in every public way
+#
+# harness/progs.py attaches metadata at creation only (`metadata=`), where the dict of the NodeData entry and the dict
+# cached on the Node handles (Node._metadata: the handle the builder returns, the one in the parent's children list)
+# are one object.  The property promises that the metadata OF THE HUGR's node (Hugr[node].metadata: what to_json
+# writes, what the renderer shows) is carried over, however it got there.  These are the public ways of writing it;
+# after a rebinding the handles created before it keep the old dict, so a write through them does not reach the HUGR
+# (and must not reach the export either): the HUGR's entry at export time is the expectation, whatever the history.
+
+META_KEYS = ["k", "how", "", "ü", "a.b", "compat.meta_json", "core.order_hint.key", "line", "x" * 30, "name", "k2", " "]
+META_VALS = [None, True, False, 0, 1, -7, 2.5, 1.0, "", "s", "ü", "a<b", "p q", [], {}, [1, [2, {"x": None}]],
+             {"b": 1, "a": [True, "z"]}, {"k": {"k": {}}}, "line\n\"q\"", 10 ** 20]
+META_WAYS = ("handle", "iter", "data", "update", "rebind", "rebind", "rebind_keep", "rebind_keep", "rebind_empty",
+             "delete")
+
+
+def set_metadata(h, n, way, key, value):
+    """one public way of writing the metadata of node n of h"""
+    import copy
+    value = copy.deepcopy(value)
+    nd = h[n]
+    if way == "handle":               # the handle the builder returned = the one in the parent's children list
+        p = nd.parent
+        hd = h.root if p is None else next(c for c in h.children(p) if c.idx == n.idx)
+        hd.metadata[key] = value
+    elif way == "iter":               # a handle obtained by iterating over the HUGR
+        next(x for x in h if x.idx == n.idx).metadata[key] = value
+    elif way == "data":
+        nd.metadata[key] = value
+    elif way == "update":
+        nd.metadata.update({key: value, key + "'": [value]})
+    elif way == "rebind":
+        nd.metadata = {key: value}
+    elif way == "rebind_keep":
+        nd.metadata = {**nd.metadata, key: value}
+    elif way == "rebind_empty":
+        nd.metadata = {}
+    elif way == "delete":
+        if nd.metadata:
+            del nd.metadata[next(iter(nd.metadata))]
+        else:
+            nd.metadata[key] = value
+    else:
+        raise ValueError(way)
+
+
+def metadata_pass(h, rng, tries=6):
+    """writes metadata of random nodes of a finished HUGR in random public ways.  Returns {way: count}."""
+    nodes = list(h)
+    exported = [n for n in nodes if kind_of(h[n].op) not in ("KInput", "KOutput", "KConst", "KModule")]
+    ways = {}
+    touched = []
+    for _ in range(rng.randint(1, tries)):
+        if touched and rng.random() < 0.3:
+            n = rng.choice(touched)                   # the same node again: write after rebinding, rebinding twice
+        elif exported and rng.random() < 0.85:
+            n = rng.choice(exported)
+        else:
+            n = rng.choice(nodes)
+        touched.append(n)
+        way = rng.choice(META_WAYS)
+        set_metadata(h, n, way, rng.choice(META_KEYS), rng.choice(META_VALS))
+        ways[way] = ways.get(way, 0) + 1
+    return ways
+
+
+CG_META_WAYS = ("builder", "builder", "data", "update", "rebind", "rebind", "rebind_keep", "rebind_empty", "delete",
+                "iter")
+
+
+def add_meta_stmts(cg, rng):
+    """inserts, at random places of the bodies of a call graph (in place), statements ["meta", way, target, key index,
+    value index] (target: the node the previous statement of the body added, or the enclosing function / nested DFG
+    itself - so before and after its children exist) and gives some `not` statements metadata at creation"""
+    def go(body):
+        for st in body:
+            if st[0] == "nest":
+                go(st[1])
+            elif st[0] == "not" and rng.random() < 0.3:
+                while len(st) < 2:
+                    st.append(0)
+                st[2:] = [[rng.randrange(len(META_KEYS)), rng.randrange(len(META_VALS))]]
+        for _ in range(rng.randint(0, 3)):
+            body.insert(rng.randint(0, len(body)), ["meta", rng.choice(CG_META_WAYS), rng.choice(["last", "last", "parent"]),
+                                                    rng.randrange(len(META_KEYS)), rng.randrange(len(META_VALS))])
+    for f in cg["funcs"]:
+        if "body" in f:
+            go(f["body"])
+    return cg
+
+
 # ----------------------------------------------------------------------------- python.rs / hugr.model -> coq/gen/ModelAttrs.v
 
 class TranslateError(Exception):
@@ -959,7 +1089,10 @@ class C12(fw.Prop):
             "CFG, metadata; in 40 % extra loads / calls of functions of the module incl. main and the enclosing "
             "function, in 35 % functions renamed to special / duplicate / mangled-looking names) plus explicit call-graph "
             "programs (1-5 declared / defined / polymorphic functions with special names, any function incl. main and "
-            "itself called and loaded, also from nested regions) plus "
+            "itself called and loaded, also from nested regions; further ones with metadata statements between the "
+            "others: on the node just added or on the enclosing function / nested DFG, through handle, builder, "
+            "Hugr[node].metadata in place or rebound) plus, on 40 % of the generated modules, 1-6 metadata writes in "
+            "every public way (handles, in place, rebinding Hugr[node].metadata) after the program was built, plus "
             "hand-written ones; Hugr.to_model() (and Package.to_model()) observed as the dataclass tree.  "
             "non-trivial = the HUGR has a static edge (call or load), an order edge between siblings and a "
             "nested container")
@@ -1004,6 +1137,8 @@ class C12(fw.Prop):
                     c["xstatic"] = True
                 if r2.random() < 0.35:
                     c["rename"] = True
+                if r2.random() < 0.4:
+                    c["xmeta"] = True        # metadata written in every public way after the program was built
             cases.append(c)
         # call graphs with special names (explicit programs; see gen_callgraph)
         for i in range(40 if tier == "quick" else 400):
@@ -1011,12 +1146,25 @@ class C12(fw.Prop):
             if rng.random() < 0.1:
                 c["package"] = True
             cases.append(c)
+        # the same kind of call graphs with metadata statements (own generator: the stream above is the one it was)
+        r3 = random.Random(rng.randrange(1 << 30) ^ 0x3E7A)
+        for i in range(20 if tier == "quick" else 300):
+            cases.append({"cg": add_meta_stmts(gen_callgraph(r3), r3)})
         return cases
 
     def build(self, case):
+        self._meta_ways = {}
         if "prog" in case:
             return named_program(case["prog"]), case["prog"]
         if "cg" in case:
+            def count(body):
+                for st in body:
+                    if st[0] == "meta":
+                        self._meta_ways[st[1]] = self._meta_ways.get(st[1], 0) + 1
+                    elif st[0] == "nest":
+                        count(st[1])
+            for f in case["cg"]["funcs"]:
+                count(f.get("body", []))
             return build_callgraph(case["cg"]), "callgraph"
         kw = {}
         if "size" in case:
@@ -1032,6 +1180,8 @@ class C12(fw.Prop):
                 add_static_uses(h, random.Random(case["seed"] ^ 0x57A7))
             if case.get("rename"):
                 special_names_pass(h, random.Random(case["seed"] ^ 0x4A3E))
+            if case.get("xmeta"):
+                self._meta_ways = metadata_pass(h, random.Random(case["seed"] ^ 0x3E7A))
             return h, p
         except TypeError:
             # generator artefact (a region that could not be completed): replaced by a fixed program
@@ -1047,6 +1197,7 @@ class C12(fw.Prop):
         try:
             view = hugr_view(h, I)
             feats = name_features(h)
+            feats["meta_ways"] = dict(getattr(self, "_meta_ways", {}))
         except HarnessError as e:
             return {"error": "view:" + str(e), "prog": p}
         try:
@@ -1151,7 +1302,7 @@ class C12(fw.Prop):
             return
         if "seed" not in case:
             return
-        for flag in ("xorder", "rename", "xstatic", "package"):
+        for flag in ("xorder", "rename", "xstatic", "package", "xmeta"):
             if case.get(flag):
                 yield {k: v for k, v in case.items() if k != flag}
         size, depth = case.get("size", 6), case.get("depth", 3)
@@ -1173,7 +1324,9 @@ class C12(fw.Prop):
              "non_module_roots": 0, "stmt_kinds": {}, "callgraph_cases": 0,
              "names": {"cases_applying_main": 0, "cases_with_self_application": 0, "cases_with_duplicate_names": 0,
                        "cases_with_special_names": 0, "cases_with_names_like_mangled": 0, "applications": 0,
-                       "applications_of_main": 0}}
+                       "applications_of_main": 0},
+             "metadata": {"cases_with_metadata_written_after_creation": 0, "cases_with_rebound_metadata": 0,
+                          "writes_by_way": {}, "exported_nodes_with_metadata": 0}}
         for c, o in zip(cases, observations):
             d["packages"] += bool(c.get("package"))
             d["callgraph_cases"] += "cg" in c
@@ -1187,6 +1340,15 @@ class C12(fw.Prop):
             dn["cases_with_names_like_mangled"] += nf.get("names_like_mangled", 0) > 0
             dn["applications"] += nf.get("applied", 0)
             dn["applications_of_main"] += nf.get("applied_main", 0)
+            mw, dm = nf.get("meta_ways") or {}, d["metadata"]
+            dm["cases_with_metadata_written_after_creation"] += bool(mw)
+            dm["cases_with_rebound_metadata"] += any(w.startswith("rebind") for w in mw)
+            for w, k in mw.items():
+                dm["writes_by_way"][w] = dm["writes_by_way"].get(w, 0) + k
+            if o.get("tree") is not None:
+                def with_meta(r):
+                    return sum(bool(n["meta"]) + sum(with_meta(x) for x in n["regs"]) for n in r["ch"])
+                dm["exported_nodes_with_metadata"] += with_meta(o["tree"])
             if "symbols_as_modelled" in nf:
                 sm = d.setdefault("symbols_spelt_as_modelled", [0, 0])
                 sm[0] += bool(nf["symbols_as_modelled"])
